@@ -23,6 +23,33 @@ package ops
 //   AcyclicTraverseNodes(nil filter) returns exactly the root plus every node on a path in P (with
 //       skip/limit: a subset that contains the root).
 // VERIF_SEED only permutes the order in which the graphs are visited.
+//
+// EXTENSION X17 (filters combined with skip/limit; everything above is unchanged). For every graph, root and
+// direction of the enumeration above x EVERY subset A of the nodes as the accepted set x Skip, Limit in {0,1,2}:
+//   AcyclicTraverseNodes(plan, nodeFilter = "node in A");
+//   TraverseIntermediaryPaths(plan + DescentFilter "segment is not a cycle", nodeFilter = "node in A") on every
+//       graph, and with a nil DescentFilter on the inputs whose subgraph reachable from the root is acyclic
+//       (the helper has no cycle guard of its own, so elsewhere the walks are infinite and nothing is defined);
+//   TraversePaths(plan + PathFilter "last node of the path in A").
+// ORACLE (naive enumeration in this file, FILTERED FIRST and then skipped/limited, so that only items the
+// filter accepts can consume skip/limit budget). clip(k) = max(0, k-skip), cut to limit when limit > 0.
+//   AcyclicTraverseNodes: R = root plus every node reachable from it. Items of the traversal are the nodes of
+//       R other than the root that are in A (the root is tested against the filter but is not a traversal
+//       item: the existing check already requires it in every result). Result = (root if in A) plus
+//       clip(|(R\{root}) n A|) distinct nodes of (R\{root}) n A; with skip=limit=0 exactly R n A.
+//   TraverseIntermediaryPaths: S = all acyclic paths of length >= 1 from the root (every prefix of a longer
+//       one included) whose last node is in A. With skip=limit=0 exactly S, each path once; otherwise clip(|S|)
+//       distinct members of S. Every returned path must be well formed (edges join consecutive nodes).
+//   TraversePaths: Pf = the maximal acyclic paths P whose last node is in A. With skip=limit=0 exactly Pf;
+//       otherwise clip(|Pf|) distinct members of Pf.
+//   ORDER: the traversal order of ops.Traversal is not documented (a stack, relationship order only requested
+//       when skip/limit is set), therefore results are compared as SETS when skip=limit=0 and by CARDINALITY
+//       plus MEMBERSHIP in the accepted set otherwise; which members survive skip/limit is not checked.
+// Known deviation class "nodes-filter-revisit-budget" (AcyclicTraverseNodes with skip or limit set; predicate
+// ovRevisit, the same structural predicate as "terminals-revisit": some reachable node is entered by two edges
+// leaving reachable nodes, or the root is entered by one): a node reached a second time passes the filter
+// again and consumes skip/limit budget again. Weaker checks kept on the class: subset of R n A, root present
+// iff in A, at most limit nodes besides the root, and the exact result for skip=limit=0.
 
 import (
 	"encoding/json"
@@ -62,7 +89,7 @@ var ovKnownDeviations = ovKnownFromEnv()
 func ovKnownFromEnv() []string {
 	var out []string
 	for _, p := range strings.Split(os.Getenv("VERIF_KNOWN"), "|") {
-		if p = strings.TrimSpace(p); p == "terminals-revisit" {
+		if p = strings.TrimSpace(p); p == "terminals-revisit" || p == "nodes-filter-revisit-budget" {
 			out = append(out, p)
 		}
 	}
@@ -334,6 +361,87 @@ func ovRevisit(g *ovGraph, root int, d graph.Direction) (bool, map[string]bool, 
 	return false, reachable, sinks
 }
 
+// ovSimplePaths: every acyclic path of length >= 1 from the root in the plan's direction (not only the maximal ones).
+func ovSimplePaths(g *ovGraph, root int, d graph.Direction) map[string][]int {
+	out := map[string][]int{}
+	var rec func(path []int)
+	rec = func(path []int) {
+		if len(path) > 1 {
+			out[ovKey(path)] = path
+		}
+		for _, v := range ovNeighbours(g, path[len(path)-1], d) {
+			onPath := false
+			for _, p := range path {
+				if p == v {
+					onPath = true
+				}
+			}
+			if !onPath {
+				rec(append(append([]int{}, path...), v))
+			}
+		}
+	}
+	rec([]int{root})
+	return out
+}
+
+// ovReachableAcyclic: no walk from the root in the plan's direction ever repeats a node.
+func ovReachableAcyclic(g *ovGraph, root int, d graph.Direction) bool {
+	state := map[int]int{} // 1: on the stack, 2: finished
+	var rec func(u int) bool
+	rec = func(u int) bool {
+		state[u] = 1
+		for _, v := range ovNeighbours(g, u, d) {
+			if state[v] == 1 || (state[v] == 0 && !rec(v)) {
+				return false
+			}
+		}
+		state[u] = 2
+		return true
+	}
+	return rec(root)
+}
+
+func ovClip(k, skip, limit int) int {
+	k -= skip
+	if k < 0 {
+		k = 0
+	}
+	if limit > 0 && k > limit {
+		k = limit
+	}
+	return k
+}
+
+// ovPathKeys renders the returned paths as index keys and reports malformed paths (edges that do not join
+// the consecutive nodes in the plan's direction) and duplicates.
+func ovPathKeys(paths graph.PathSet, dir graph.Direction) (map[string]int, string) {
+	keys, problem := map[string]int{}, ""
+	for _, p := range paths {
+		var idx []int
+		for _, node := range p.Nodes {
+			idx = append(idx, ovIndex(node.ID))
+		}
+		key := ovKey(idx)
+		keys[key]++
+		wellFormed := len(p.Edges) == len(p.Nodes)-1
+		for i := 0; wellFormed && i < len(p.Edges); i++ {
+			a, b := p.Nodes[i].ID, p.Nodes[i+1].ID
+			if dir == graph.DirectionInbound {
+				a, b = b, a
+			}
+			wellFormed = p.Edges[i] != nil && p.Edges[i].StartID == a && p.Edges[i].EndID == b
+		}
+		if !wellFormed {
+			problem = fmt.Sprintf("path %s has edges that do not join its consecutive nodes in the plan's direction", key)
+		}
+		if keys[key] == 2 {
+			problem = fmt.Sprintf("path %s returned more than once", key)
+		}
+	}
+	return keys, problem
+}
+
 func TestVerifBoundedOpsTraversal(t *testing.T) {
 	n, selfLoops := 3, true
 	switch os.Getenv("VERIF_BOUND") {
@@ -358,7 +466,12 @@ func TestVerifBoundedOpsTraversal(t *testing.T) {
 	cases, failed, deviations := 0, 0, 0
 	failures := []string{}
 	deviationExamples, deviationEdges := []string{}, []int{}
-	useKnownDeviations := len(ovKnownDeviations) > 0 && os.Getenv("VERIF_STRICT") == ""
+	knownClass := map[string]bool{}
+	for _, c := range ovKnownDeviations {
+		knownClass[c] = os.Getenv("VERIF_STRICT") == ""
+	}
+	useKnownDeviations := knownClass["terminals-revisit"]
+	xHits, xExamples, xCases := map[string]int{}, map[string][]string{}, map[string]int{}
 	failedBy := map[string]int{}
 	fail := func(format string, args ...any) {
 		failed++
@@ -510,20 +623,153 @@ func TestVerifBoundedOpsTraversal(t *testing.T) {
 						}
 					}
 				}
+
+				// ---- X17: node / path filters combined with skip and limit
+				{
+					revisit, reachable, _ := ovRevisit(g, root, dir)
+					simple := ovSimplePaths(g, root, dir)
+					acyclicReach := ovReachableAcyclic(g, root, dir)
+					rootKey := strconv.Itoa(root)
+					for accept := 0; accept < 1<<uint(n); accept++ {
+						inA := func(i int) bool { return accept&(1<<uint(i)) != 0 }
+						var aList []int
+						for i := 0; i < n; i++ {
+							if inA(i) {
+								aList = append(aList, i)
+							}
+						}
+						nodeFilter := func(node *graph.Node) bool { return inA(ovIndex(node.ID)) }
+						// accepted items of the three naive enumerations
+						accNodes := map[string]bool{} // (R \ {root}) n A
+						for k := range reachable {
+							if i, _ := strconv.Atoi(k); i != root && inA(i) {
+								accNodes[k] = true
+							}
+						}
+						accInter, accMax := map[string]bool{}, map[string]bool{}
+						for k, p := range simple {
+							if inA(p[len(p)-1]) {
+								accInter[k] = true
+							}
+						}
+						for k, p := range want {
+							if inA(p[len(p)-1]) {
+								accMax[k] = true
+							}
+						}
+						for skip := 0; skip <= 2; skip++ {
+							for limit := 0; limit <= 2; limit++ {
+								exact := skip == 0 && limit == 0
+								whereX := fmt.Sprintf("%s accepted nodes A=%v", where, aList)
+								// AcyclicTraverseNodes + node filter
+								var nodes graph.NodeSet
+								if call("AcyclicTraverseNodes+filter", func(tx graph.Transaction, plan TraversalPlan) error {
+									var err error
+									nodes, err = AcyclicTraverseNodes(tx, plan, nodeFilter)
+									return err
+								}, skip, limit) {
+									xCases["AcyclicTraverseNodes+filter"]++
+									got := ovNodeSetKeys(nodes)
+									others := 0
+									for k := range got {
+										if k != rootKey {
+											others++
+										}
+									}
+									wantOthers := ovClip(len(accNodes), skip, limit)
+									wantAll := map[string]bool{}
+									for k := range accNodes {
+										wantAll[k] = true
+									}
+									if inA(root) {
+										wantAll[rootKey] = true
+									}
+									ok := ovSubset(got, wantAll) && got[rootKey] == inA(root) && others == wantOthers
+									msg := fmt.Sprintf("AcyclicTraverseNodes+filter %s skip=%d limit=%d: returned nodes %v, want the root %d iff it is in A plus %d of the accepted reachable nodes %v (naive enumeration: nodes reachable from the root %v, without the root, filtered by A, then skip/limit)", whereX, skip, limit, ovSortedKeys(got), root, wantOthers, ovSortedKeys(accNodes), ovSortedKeys(reachable))
+									if revisit && !exact && knownClass["nodes-filter-revisit-budget"] {
+										if !ok {
+											xHits["nodes-filter-revisit-budget"]++
+											if len(xExamples["nodes-filter-revisit-budget"]) < 3 && len(g.edges) <= 2 {
+												xExamples["nodes-filter-revisit-budget"] = append(xExamples["nodes-filter-revisit-budget"], msg)
+											}
+										}
+										if !ovSubset(got, wantAll) || got[rootKey] != inA(root) || (limit > 0 && others > limit) {
+											fail("AcyclicTraverseNodes+filter %s skip=%d limit=%d (known deviation class, weak check): returned %v, accepted reachable nodes %v", whereX, skip, limit, ovSortedKeys(got), ovSortedKeys(wantAll))
+										}
+									} else if !ok {
+										fail("%s", msg)
+									}
+								}
+								// TraverseIntermediaryPaths + node filter (caller's descent filter rejects cycles; nil where no cycle is reachable)
+								for _, guard := range []bool{true, false} {
+									if !guard && !acyclicReach {
+										continue
+									}
+									name := "TraverseIntermediaryPaths+filter"
+									if !guard {
+										name = "TraverseIntermediaryPaths+filter(nil DescentFilter)"
+									}
+									var paths graph.PathSet
+									if call(name, func(tx graph.Transaction, plan TraversalPlan) error {
+										if guard {
+											plan.DescentFilter = func(ctx *TraversalContext, segment *graph.PathSegment) bool { return !segment.IsCycle() }
+										}
+										var err error
+										paths, err = TraverseIntermediaryPaths(tx, plan, nodeFilter)
+										return err
+									}, skip, limit) {
+										xCases["TraverseIntermediaryPaths+filter"]++
+										keys, problem := ovPathKeys(paths, dir)
+										gotSet := map[string]bool{}
+										for k := range keys {
+											gotSet[k] = true
+										}
+										wantCount := ovClip(len(accInter), skip, limit)
+										if problem != "" || !ovSubset(gotSet, accInter) || len(paths) != wantCount {
+											fail("%s %s skip=%d limit=%d: returned %d paths %v %s; want %d distinct paths out of %v (all acyclic paths from the root that end in A, then skip/limit)", name, whereX, skip, limit, len(paths), ovSortedKeys(keys), problem, wantCount, ovSortedKeys(accInter))
+										}
+									}
+								}
+								// TraversePaths + path filter
+								var paths graph.PathSet
+								if call("TraversePaths+filter", func(tx graph.Transaction, plan TraversalPlan) error {
+									plan.PathFilter = func(ctx *TraversalContext, segment *graph.PathSegment) bool { return nodeFilter(segment.Node) }
+									var err error
+									paths, err = TraversePaths(tx, plan)
+									return err
+								}, skip, limit) {
+									xCases["TraversePaths+filter"]++
+									keys, problem := ovPathKeys(paths, dir)
+									gotSet := map[string]bool{}
+									for k := range keys {
+										gotSet[k] = true
+									}
+									wantCount := ovClip(len(accMax), skip, limit)
+									if problem != "" || !ovSubset(gotSet, accMax) || len(paths) != wantCount {
+										fail("TraversePaths+filter %s skip=%d limit=%d: returned %d paths %v %s; want %d distinct paths out of %v (maximal acyclic paths %v whose last node is in A, then skip/limit)", whereX, skip, limit, len(paths), ovSortedKeys(keys), problem, wantCount, ovSortedKeys(accMax), ovSortedKeys(want))
+									}
+								}
+							}
+						}
+					}
+				}
 			}
 		}
 	}
+	xHits["terminals-revisit"] = deviations
 	res := map[string]any{
 		"name":                    "ops-traversal",
-		"bound":                   fmt.Sprintf("all digraphs on %d nodes (self loops: %v) x every root x {outbound,inbound} x TraversePaths (skip,limit in 0..2), AcyclicTraverseTerminals, AcyclicTraverseNodes (skip/limit in {00,10,01,11,02})", n, selfLoops),
+		"bound":                   fmt.Sprintf("all digraphs on %d nodes (self loops: %v) x every root x {outbound,inbound} x TraversePaths (skip,limit in 0..2), AcyclicTraverseTerminals, AcyclicTraverseNodes (skip/limit in {00,10,01,11,02}); X17: x every node subset A x skip,limit in 0..2 x AcyclicTraverseNodes(nodeFilter A), TraverseIntermediaryPaths(nodeFilter A; acyclic DescentFilter, and nil DescentFilter where no cycle is reachable), TraversePaths(PathFilter: last node in A)", n, selfLoops),
 		"graphs":                  total,
 		"cases":                   cases,
 		"failed":                  failed,
 		"failed_by_helper":        failedBy,
 		"known_deviations":        deviations,
-		"known_deviation_hits":    map[string]int{"terminals-revisit": deviations},
+		"known_deviation_hits":    xHits,
 		"known_deviation_classes": ovKnownDeviations,
 		"deviation_examples":      deviationExamples,
+		"deviation_examples_x17":  xExamples,
+		"cases_by_extension":      xCases,
 		"exhaustive":              true,
 		"failures":                failures,
 	}
